@@ -2490,8 +2490,11 @@ class TensorDict(TensorDictBase):
                 value, check_shape=True, non_blocking=non_blocking
             )
         if not inplace:
-            if self._is_locked and not ignore_lock:
-                raise RuntimeError(_LOCK_ERROR)
+            if self._is_locked:
+                if not ignore_lock:
+                    raise RuntimeError(_LOCK_ERROR)
+                # an entry is (re)bound under lock: what was memoised is stale
+                self._erase_cache_up()
             self._tensordict[key] = value
         else:
             try:
